@@ -113,9 +113,13 @@ GContractLabels(a, b) == Remaining(a.oddpos \o b.oddpos)
 \* reference order `lab`: the result may order its labels differently, which
 \* changes every element by the sign of that reordering
 FlipDen(d, s) == [E |-> {[k |-> e.k, v |-> VSgn(e.v, s)] : e \in d.E}, ix |-> d.ix, charge |-> d.charge]
+\* The result's own label word need not be fully reduced (the library annihilates conjugate labels only
+\* when they become neighbours while sorting): it denotes the same tensor as its reduction - remaining
+\* labels in their relative order, coefficient times the sign of that reduction.
 WhyGraded(res, exp, lab, p) ==
-  IF ~SameLabelSet(res.oddpos, lab) THEN {p \o ".labels"}
-  ELSE WhySubDen(Den(res), FlipDen(exp, ReorderSign(lab, res.oddpos)), p)
+  IF ~LabelsOK(res.oddpos) \/ ~LabelsOK(lab) \/ ~SameLabelSet(Remaining(res.oddpos), Remaining(lab)) THEN {p \o ".labels"}
+  ELSE WhySubDen(FlipDen(Den(res), ResolveSign(res.oddpos)),
+                 FlipDen(exp, ResolveSign(lab) * ReorderSign(Remaining(lab), Remaining(res.oddpos))), p)
 
 ---------------------------------------------------------------------------
 \* single-array einsum: traced pairs <<p, q>> (1-based positions), kept = output order
